@@ -8,6 +8,7 @@ Strings are lower-case hex (`-` = empty string); lists are comma separated
   rel p=<s> f=<s>                    makeRelPath
   mk p=<s> f=<s>                     makePath
   dfp d=<s> ps=<list>                dirFilePath (env.src / env.out with d = srcDir / outDir)
+  subdirs p=<s> dirs=<list>          newSubBuilds: the directories a sub_builds statement names
   match pat=<s> name=<s>             path.Match      -> yes | no | bad
   fmatch pat=<s> name=<s>            filepath.Match  -> yes | no | bad
   glob tree=<list> pat=<s>           filepath.Glob(<srcDir>/pat), relative results -> ok <list> | bad
@@ -58,6 +59,10 @@ def step (_ : Unit) (line : String) : Unit × String :=
     | "dfp" :: rest =>
       match kvS rest "d", kvL rest "ps" with
       | some d, some ps => showS (dirFilePath d ps)
+      | _, _ => "bad-op"
+    | "subdirs" :: rest =>
+      match kvS rest "p", kvL rest "dirs" with
+      | some p, some dirs => showL (dirs.map (makeRelPath p))
       | _, _ => "bad-op"
     | "match" :: rest =>
       match kvS rest "pat", kvS rest "name" with
